@@ -164,6 +164,8 @@ func Scalars() []Named {
 		N("json.Number int", json.Number("12")), N("json.Number float", json.Number("2.5e1")), N("json.Number junk", json.Number("x")), N("[]byte", []byte("bytes")), N("[]byte utf-8", []byte("h\u00e9llo \u4e2d\u6587 \U0001F600")), N("[]uint8", []uint8{0xe2, 0x82, 0xac, 'x'}), N("[]rune", []rune("h\u00e9")), N("[4]byte", [4]byte{0xf0, 0x9f, 0x98, 0x80}), N("rune", 'x'), N("byte", byte('y')),
 		N("error", errors.New("an error")), N("time.Duration", 90*time.Second), N("time.Month", time.March), N("time.Time", time.Date(2021, 3, 4, 5, 6, 7, 0, time.UTC)), N("time.Time zero", time.Time{}),
 		N("*big.Int", big.NewInt(42)), N("big.Float", *big.NewFloat(1.5)), N("url.URL", url.URL{Scheme: "http", Host: "h"}), N("net.IP", net.IP{127, 0, 0, 1}), N("os.FileMode", os.FileMode(0o644)),
+		N("String promoted from a nil pointer 3 levels down", Deep2{}), N("String promoted from a nil pointer 9 levels down", Deep8{}), N("String promoted from a nil pointer 13 levels down", Deep12{}), N("*String promoted from a nil pointer 10 levels down", &Deep9{}),
+		N("Number promoted from a nil interface 10 levels down", DeepI9{}), N("Number promoted from a nil interface 13 levels down", &DeepI12{}),
 		NilSafePointer(), N("embeds a nil SafeValue", EmbedsSafe{Tag: "t"}), N("*embeds a nil SafeValue", &EmbedsSafe{}), N("embeds a SafeValue", EmbedsSafe{SafeValue: stick.NewSafeValue("es", "html")}),
 		N("nil *time.Time", (*time.Time)(nil)), N("*time.Time", func() *time.Time { t := time.Date(2020, 2, 29, 23, 59, 59, 0, time.UTC); return &t }()), N("nil *big.Int", (*big.Int)(nil)), N("nil *big.Float", (*big.Float)(nil)), N("nil *url.URL", (*url.URL)(nil)),
 		N("nil *decimal.Decimal", (*decimal.Decimal)(nil)), N("*decimal.Decimal", func() *decimal.Decimal { d := decimal.NewFromFloat(2.5); return &d }()), N("nil *json.Number", (*json.Number)(nil)), N("nil *time.Duration", (*time.Duration)(nil)), N("nil *net.IP", (*net.IP)(nil)), N("nil *[]byte", (*[]byte)(nil)), N("nil *error", (*error)(nil)),
@@ -247,7 +249,7 @@ func Keys() []Named {
 	return []Named{
 		N("'a'", "a"), N("'k'", "k"), N("'1'", "1"), N("'0'", "0"), N("'Name'", "Name"), N("'hidden'", "hidden"), N("'ValueMethod'", "ValueMethod"), N("'PtrMethod'", "PtrMethod"),
 		N("'Add'", "Add"), N("'Variadic'", "Variadic"), N("'Join'", "Join"), N("'Fmt'", "Fmt"), N("'Two'", "Two"), N("'Nothing'", "Nothing"), N("'NilFunc'", "NilFunc"), N("'Fn'", "Fn"), N("'TakesPtr'", "TakesPtr"), N("'TakesUint'", "TakesUint"), N("'TakesInt8'", "TakesInt8"), N("'TakesUint8'", "TakesUint8"),
-		N("'TakesIface'", "TakesIface"), N("'TakesFloat'", "TakesFloat"), N("'TakesSlice'", "TakesSlice"), N("'Concat'", "Concat"), N("'hiddenMethod'", "hiddenMethod"), N("'missing'", "missing"), N("''", ""), N("'Secret'", "Secret"), N("'secret'", "secret"), N("'Open'", "Open"), N("'Kids'", "Kids"), N("'GetSecret'", "GetSecret"), N("'IsOpen'", "IsOpen"), N("'HasKids'", "HasKids"), N("'Get'", "Get"), N("'count'", "count"),
+		N("'TakesIface'", "TakesIface"), N("'TakesFloat'", "TakesFloat"), N("'TakesSlice'", "TakesSlice"), N("'Concat'", "Concat"), N("'hiddenMethod'", "hiddenMethod"), N("'missing'", "missing"), N("''", ""), NilSafePointer(), N("embeds a nil SafeValue as key", EmbedsSafe{}), N("opinionated safe 1", OpinionatedSafe{Inner: 1}), N("'Secret'", "Secret"), N("'secret'", "secret"), N("'Open'", "Open"), N("'Kids'", "Kids"), N("'GetSecret'", "GetSecret"), N("'IsOpen'", "IsOpen"), N("'HasKids'", "HasKids"), N("'Get'", "Get"), N("'count'", "count"),
 		N("'Items'", "Items"), N("'Inner'", "Inner"), N("'Any'", "Any"), N("'Attrs'", "Attrs"), N("'ID'", "ID"), N("'note'", "note"), N("'innerLower'", "innerLower"), N("'A'", "A"), N("'B'", "B"), N("'C'", "C"), N("'N'", "N"), N("'Extra'", "Extra"), N("'Hello'", "Hello"), N("'PtrHello'", "PtrHello"), N("'String'", "String"), N("'Number'", "Number"), N("'Boolean'", "Boolean"), N("'Tag'", "Tag"), N("'PP'", "PP"), N("'Next'", "Next"), N("KeyStr('a')", KeyStr("a")), N("KeyStringer('a')", KeyStringer("a")), N("OuterIface{slice}", OuterIface{Any: []int{1}}), N("KeyInt(1)", KeyInt(1)), N("'true'", "true"),
 		// strings that strconv.ParseFloat accepts but that are no usable index
 		N("'NaN'", "NaN"), N("'nan'", "nan"), N("'Inf'", "Inf"), N("'-Inf'", "-Inf"), N("'+Infinity'", "+Infinity"), N("'1e400'", "1e400"), N("'0x1'", "0x1"), N("'0x1p-2'", "0x1p-2"),
@@ -458,3 +460,33 @@ type EmbedsSafe struct {
 	stick.SafeValue
 	Tag string
 }
+
+// DeepN: a method promoted through N levels of embedding from a pointer (an interface) that is nil.
+type (
+	Deep0   struct{ *ValStringer }
+	Deep1   struct{ Deep0 }
+	Deep2   struct{ Deep1 }
+	Deep3   struct{ Deep2 }
+	Deep4   struct{ Deep3 }
+	Deep5   struct{ Deep4 }
+	Deep6   struct{ Deep5 }
+	Deep7   struct{ Deep6 }
+	Deep8   struct{ Deep7 }
+	Deep9   struct{ Deep8 }
+	Deep10  struct{ Deep9 }
+	Deep11  struct{ Deep10 }
+	Deep12  struct{ Deep11 }
+	DeepI0  struct{ stick.Number }
+	DeepI1  struct{ DeepI0 }
+	DeepI2  struct{ DeepI1 }
+	DeepI3  struct{ DeepI2 }
+	DeepI4  struct{ DeepI3 }
+	DeepI5  struct{ DeepI4 }
+	DeepI6  struct{ DeepI5 }
+	DeepI7  struct{ DeepI6 }
+	DeepI8  struct{ DeepI7 }
+	DeepI9  struct{ DeepI8 }
+	DeepI10 struct{ DeepI9 }
+	DeepI11 struct{ DeepI10 }
+	DeepI12 struct{ DeepI11 }
+)
